@@ -388,10 +388,37 @@ def gen(rng, tier, idx):
             else:
                 cmds.append(["search", new_term(atom_wids())])
 
+    def swap_history():
+        """term frequencies change, the number of documents and of distinct words does not"""
+        for _ in range(rng.randrange(1, 3)):
+            known = [d for d in table if table[d]]
+            if not known:
+                return
+            d = rng.choice(known)
+            ws = list(table[d])
+            others = [w for d2, w2 in table.items() if d2 != d for w in w2]
+            if not others:
+                return
+            i = rng.randrange(len(ws))
+            if ws[i] in others or ws.count(ws[i]) > 1:
+                ws[i] = rng.choice(others)
+            else:
+                ws.append(rng.choice(others))
+            cmds.append(["reindex", d] + ws)
+            table[d] = ws
+
     history(ndocs + rng.randrange(0, 4))
+    first = len(cmds)
     queries(rng.randrange(2, 6))
     for _ in range(rng.choice([0, 1, 1, 2])):
-        history(rng.randrange(1, 5))
+        asked = [c for c in cmds[first:] if c[0] in ("search", "phrase", "glob", "qw", "apply")]
+        if rng.random() < 0.4:
+            swap_history()
+        else:
+            history(rng.randrange(1, 5))
+        # scores are a function of the CURRENT corpus: earlier queries are asked again after the change
+        for c in rng.sample(asked, min(len(asked), rng.randrange(0, 3))):
+            cmds.append(list(c))
         queries(rng.randrange(1, 4))
     if kind == "okapi" and rng.random() < 0.3:
         n = rng.randrange(1, 6)
